@@ -115,6 +115,8 @@ def repo_dir():
 
 def bind_repo():
     """Put the chosen tree first on sys.path and make sure that is what gets imported."""
+    from vlib import patch as _patch
+    _patch.install_os_random_probes()     # before the library is imported (import-time bindings see the probes)
     repo = repo_dir()
     sys.dont_write_bytecode = True
     os.environ["PYTHONDONTWRITEBYTECODE"] = "1"
